@@ -191,8 +191,11 @@ func yaccParse(src []byte, file *SourceFile, intern *stringIntern) (*Ast, error)
 	if result, info := yaccParseAny(src, file, intern); result != 0 {
 		return nil, &info // return lex on error to provide loc and token info
 	} else if info.info.exp != nil {
-		return info.info.global, errors.New(
-			"Expected: includes or stage or pipeline or call.")
+		return info.info.global, &wrapError{
+			innerError: errors.New(
+				"Expected: includes or stage or pipeline or call."),
+			loc: info.info.exp.getNode().Loc,
+		}
 	} else {
 		return info.info.global, nil // success
 	}
